@@ -70,7 +70,7 @@ func (s *synthDB) GetMetadata(a string) (*db.Metadata, error) {
 type c11Ent struct {
 	Art     int `json:"art"`     // 0 absent, 1 cert+key, 2 cert+csr, 3 key only, 4 cert only
 	Hash    int `json:"hash"`    // 0 none, 1 equal, 2 different
-	Expired int `json:"expired"` // bit0 cert expired, bit1 config end in future
+	Expired int `json:"expired"` // bit0 certificate expired; bits 1-2 configured end: 0 past and before the certificate's end, 1 future, 2 past but after the certificate's end, 3 far future
 	CfgNew  int `json:"cfgNew"`  // 0 config older than artifact, 1 newer
 	Time    int `json:"time"`    // artifact time rank
 }
@@ -97,11 +97,16 @@ var c11ArtNames = []string{"absent", "cert+key", "cert+csr", "key-only", "cert-o
 var c11HashNames = []string{"none", "equal", "different"}
 
 var (
-	c11Key      *ecdsa.PrivateKey
-	c11Past     = time.Date(2001, 1, 1, 0, 0, 0, 0, time.UTC)
-	c11Future   = time.Date(2101, 1, 1, 0, 0, 0, 0, time.UTC)
-	c11T0       = time.Date(2020, 1, 1, 0, 0, 0, 0, time.UTC)
-	c11ReqDummy = &cert.CertificateRequest{}
+	c11Key    *ecdsa.PrivateKey
+	c11Past   = time.Date(2001, 1, 1, 0, 0, 0, 0, time.UTC)
+	c11Future = time.Date(2101, 1, 1, 0, 0, 0, 0, time.UTC)
+	// configured ends: before an expired certificate's end, future, after an expired certificate's end but still past, far future
+	c11CfgEnds = []time.Time{time.Date(2001, 1, 1, 0, 0, 0, 0, time.UTC), time.Date(2101, 1, 1, 0, 0, 0, 0, time.UTC), time.Date(2002, 1, 1, 0, 0, 0, 0, time.UTC), time.Date(2102, 1, 1, 0, 0, 0, 0, time.UTC)}
+	// certificate ends: expired / valid
+	c11CertExpired = time.Date(2001, 6, 1, 0, 0, 0, 0, time.UTC)
+	c11CertValid   = time.Date(2101, 6, 1, 0, 0, 0, 0, time.UTC)
+	c11T0          = time.Date(2020, 1, 1, 0, 0, 0, 0, time.UTC)
+	c11ReqDummy    = &cert.CertificateRequest{}
 )
 
 func init() {
@@ -119,7 +124,7 @@ func c11State(e c11Ent, hasIssuer bool, issuerTime int, issuerHasFile bool) refc
 	s.HashPresent = e.Hash != 0
 	s.HashEqual = e.Hash == 1
 	s.CertExpired = e.Expired&1 != 0
-	s.ConfigEndFuture = e.Expired&2 != 0
+	s.ConfigEndFuture = c11CfgEnds[(e.Expired>>1)&3].After(time.Now())
 	s.ConfigNewer = e.CfgNew == 1
 	s.IssuerNewer = hasIssuer && issuerHasFile && issuerTime > e.Time
 	if e.Art == 0 {
@@ -139,10 +144,7 @@ func c11Build(ents []c11Ent, parent []int, perm int) *synthDB {
 		if parent[i] >= 0 {
 			cfg.Issuer = name(parent[i])
 		}
-		cfg.Validity.Until = c11Past
-		if e.Expired&2 != 0 {
-			cfg.Validity.Until = c11Future
-		}
+		cfg.Validity.Until = c11CfgEnds[(e.Expired>>1)&3]
 		cfg.Validity.IsSet, cfg.Validity.IsStatic = true, true
 		cfg.Validity.From = c11T0
 		meta := &db.Metadata{}
@@ -162,9 +164,9 @@ func c11Build(ents []c11Ent, parent []int, perm int) *synthDB {
 		}
 		if e.Art == 1 || e.Art == 2 || e.Art == 4 {
 			c := &cert.Certificate{}
-			c.TBSCertificate.Validity.NotAfter = c11Future
+			c.TBSCertificate.Validity.NotAfter = c11CertValid
 			if e.Expired&1 != 0 {
-				c.TBSCertificate.Validity.NotAfter = c11Past
+				c.TBSCertificate.Validity.NotAfter = c11CertExpired
 			}
 			art.Certificate = c
 		}
@@ -371,7 +373,7 @@ func c11RunSynth(x *engine.Ctx, ents []c11Ent, parent []int, strat, perm int) {
 func c11AllEnts(f func(e c11Ent)) {
 	for art := 0; art < 5; art++ {
 		for hash := 0; hash < 3; hash++ {
-			for exp := 0; exp < 4; exp++ {
+			for exp := 0; exp < 8; exp++ {
 				hasCert := art == 1 || art == 2 || art == 4
 				if !hasCert && exp&1 != 0 {
 					continue // no certificate that could be expired
@@ -886,7 +888,7 @@ func init() {
 	register(&engine.Check{
 		ID:          "C11",
 		Level:       "model_checking",
-		Rule:        "(1) db.PlanBulkUpdate on a synthetic db.Database: for an issuer/subject pair the full product of per-entity states (artifact {absent, cert+key, cert+CSR, key only, cert only} x stored hash {none, equal, different} x (certificate expired, configuration end in the future) x config older/newer than artifact) for both entities x issuer-vs-subject artifact time {<,=,>} x all 32 strategies; for every rooted forest on <=3 (quick) / <=4 (thorough) entities a 6-letter per-entity alphabet x all strict artifact-time orders + all-equal x 32 strategies (x 6 return-order permutations of roots/subscribers for n<=3). (2) the same pair states realised as files (hash line, PEM blocks, mtimes) on FsDb+simfs for all 225 artifact/hash combinations x config age x time relation x 32 strategies, followed by BulkUpdate (issuer written first, subject verifies under the issuer written in this run, nothing unplanned written). (3) the CLI binary with all 32 explicit flag combinations on one world per reason, and all 243 spellings of the five flags (unmentioned = default, given, given as =false; short and long forms) on three worlds, which pins the documented defaults (-m and -c on). Oracle: the decision table transcribed from the statement with explicit don't-care cells. states = distinct abstract worlds, transitions = plans computed",
+		Rule:        "(1) db.PlanBulkUpdate on a synthetic db.Database: for an issuer/subject pair the full product of per-entity states (artifact {absent, cert+key, cert+CSR, key only, cert only} x stored hash {none, equal, different} x (certificate expired or not) x (configured end before the certificate's end / after it but still past / future / far future) x config older/newer than artifact) for both entities x issuer-vs-subject artifact time {<,=,>} x all 32 strategies; for every rooted forest on <=3 (quick) / <=4 (thorough) entities a 6-letter per-entity alphabet x all strict artifact-time orders + all-equal x 32 strategies (x 6 return-order permutations of roots/subscribers for n<=3). (2) the same pair states realised as files (hash line, PEM blocks, mtimes) on FsDb+simfs for all 225 artifact/hash combinations x config age x time relation x 32 strategies, followed by BulkUpdate (issuer written first, subject verifies under the issuer written in this run, nothing unplanned written). (3) the CLI binary with all 32 explicit flag combinations on one world per reason, and all 243 spellings of the five flags (unmentioned = default, given, given as =false; short and long forms) on three worlds, which pins the documented defaults (-m and -c on). Oracle: the decision table transcribed from the statement with explicit don't-care cells. states = distinct abstract worlds, transitions = plans computed",
 		Bound:       map[string]string{"forest": "quick<=3 thorough<=4", "file layer": "2-entity chain"},
 		Assumptions: []string{"comparisons 'newer than its artifact' are not decided when the entity has no artifact file (don't-care)", "expiry is explored with certificates decades away from the wall clock"},
 		Budget:      budgets(quickBudget, thoroughBudget),
